@@ -56,6 +56,18 @@ partial def vToJson : V → Json
   | .dct kvs => Json.mkObj [("d", .arr (kvs.map fun kv => Json.arr #[.str (keyToString kv.1), vToJson kv.2]).toArray)]
   | .ns kvs => Json.mkObj [("n", .arr (kvs.map fun kv => Json.arr #[.str (keyToString kv.1), vToJson kv.2]).toArray)]
 
+/-- Wire atoms >= 1000 stand for Python scalars of another type that compare `==` to a plain int atom
+(1000 False, 1001 True, 1002 0.0, 1003 1.0, 1006 2.0; 1004 "0" and 1005 "" have no twin).  Python's `==`
+on namespaces is structural with `==` on the leaves, so the `eq` observations compare `pyEqNorm`-images. -/
+partial def pyEqNorm : V → V
+  | .atom a => .atom (if a = 1000 then 0 else if a = 1001 then 1 else if a = 1002 then 0 else if a = 1003 then 1
+                      else if a = 1006 then 2 else a)
+  | .lst xs => .lst (xs.map pyEqNorm)
+  | .tup xs => .tup (xs.map pyEqNorm)
+  | .dct kvs => .dct (kvs.map fun kv => (kv.1, pyEqNorm kv.2))
+  | .ns kvs => .ns (kvs.map fun kv => (kv.1, pyEqNorm kv.2))
+  | .none => .none
+
 def errToJson : Err → Json
   | .key => Json.mkObj [("err", "KeyError")]
   | .attr => Json.mkObj [("err", "AttributeError")]
@@ -157,7 +169,7 @@ def step (st : St) (j : Json) : Json × St :=
   | "clone_eq" => outState (.bool (veq (.ns (clone st.cur)) (.ns st.cur))) st.cur
   | "clone_swap" => outState .null (clone st.cur)
   | "poke_lists" => pokeOut st
-  | "eq" => outState (.bool (veq (.ns st.cur) (getV j "v"))) st.cur
+  | "eq" => outState (.bool (veq (pyEqNorm (.ns st.cur)) (pyEqNorm (getV j "v")))) st.cur
   | "from_dict" =>
     match fromDict clash (strItems (getV j "v")) with
     | .ok s => outState .null s
